@@ -1025,3 +1025,17 @@ _add(Native('GF_gate', 'mpyc.finfields.GF', lambda *a: _guarded(call_gf_gate, *a
 
 def names(prop):
     return [n for n, q in PROP.items() if q == prop]
+
+
+# ---- listed known finding (C23): BinaryPolynomial.__call__ returns 0 at every even x.  Delimited exactly: every evaluation returned is 0
+#      (the other representation gives the constant term); any other deviation at x = 0 mod p has a different key
+def _cls_at0_bin(args, res, exc, msg):
+    return 'even-x-gives-0' if exc is None and isinstance(res, list) and res and all(v == 0 for v in res) else None
+
+
+def _cls_at0_agree(args, res, exc, msg):
+    return 'even-x-gives-0' if exc is None and isinstance(res, tuple) and isinstance(res[0], list) and res[0] and all(v == 0 for v in res[0]) and isinstance(res[1], list) else None
+
+
+NATIVE['evaluate_at0.bin'].classify = _cls_at0_bin
+NATIVE['agree.evaluate_at0'].classify = _cls_at0_agree
